@@ -287,12 +287,17 @@ func ConvertConfig(tmplData *configTemplateData, w io.Writer) {
 		}
 		fmt.Fprintf(w, "#\n")
 
-		encoder := yaml.NewEncoder(w)
-		if err := encoder.Encode(tmplData.Data); err != nil {
-			fmt.Fprintf(os.Stderr, "YAML encoding error %v\n", err)
-			os.Exit(1)
+		// An input that already is in the v2 layout is written back with the
+		// deprecated options removed. A v1 input still has to go through the
+		// template, which moves its settings to their v2 locations.
+		if _, isV2 := _fetch(tmplData.Data, "General.ConfigurationVersion"); isV2 {
+			encoder := yaml.NewEncoder(w)
+			if err := encoder.Encode(tmplData.Data); err != nil {
+				fmt.Fprintf(os.Stderr, "YAML encoding error %v\n", err)
+				os.Exit(1)
+			}
+			return
 		}
-		return
 	}
 
 	// Otherwise, generate the full documented template
